@@ -222,7 +222,7 @@ func runPipe[I, O any](o PipeOpts, inputs [][]I, build func(in []<-chan I) []<-c
 					if o.StepFeed {
 						<-gate[i]
 					}
-					simrt.Yield(-2, "prod-send")
+					prodYield()
 					ins[i] <- v
 					res.Fed[i]++
 				}
